@@ -71,7 +71,91 @@ def build(ctx, res):
     res.samples.append({"obligation": "verus:codec:IdWindow::encode", "contract": "ensures res_opt(r) == enc(*self, id)"})
     expect = ["IdWindow::count", "IdWindow::encode", "IdRebase::decode", "encode_sentinel", "decode_sentinel",
               "lemma_roundtrip", "lemma_order", "lemma_onto", "lemma_refuse", "lemma_sentinel", "vp_roundtrip", "vp_roundtrip_sentinel"]
-    return [VerusJob("codec", text, vf, expect, canaries=CANARIES, items=items, trusted=TRUSTED)]
+    jobs = [VerusJob("codec", text, vf, expect, canaries=CANARIES, items=items, trusted=TRUSTED)]
+    jobs.append(build_dict(ctx, res))
+    return jobs
+
+
+DICT_TRUSTED = {
+    r"fn vp_get_str_value": "O9: resource_table::get_str_value outlined; str_value(id) is the uninterpreted content of the live string table",
+    r"fn vp_msg": "O4: error-message construction outlined to an uninterpreted String",
+    r"struct ExPathBuf": "PathBuf is an opaque external type (path dictionary fields are carried, not interpreted)",
+    r"axiom_strid_key_model|admit\(\)": "assumed: the derived Hash/Eq of the usize newtype StrId obeys vstd's key model (deterministic hashing)",
+    r"uninterp spec fn": "str_value() is uninterpreted",
+    r"assume_specification<'a, T: Copy> \[Option": "std: Option<&T>::copied() has no vstd spec; assumed: maps Some(&x) to Some(x)",
+    r"assume_specification.*ok_or_else": "std: Option::ok_or_else has no vstd spec; assumed: Some(v) -> Ok(v), None -> Err(f())",
+}
+
+DICT_CANARIES = [
+    ("vp_canary_dict", "proof fn vp_canary_dict(s: EncodeSession, id: StrId) requires dict_wf(s), s.str_map@.contains_key(id), s.str_dict@.len() >= 2, s.str_dict@.len() < 0xffff_ffff ensures false {}"),
+]
+
+
+def build_dict(ctx, res):
+    """job `codec_dict`: EncodeSession::encode_str / DecodeSession::decode_str (dictionary indices for interned ids)"""
+    p = ctx.src(P)
+    r = ctx.src("crates/parser/src/resource_table.rs")
+    hdr = ("use vstd::prelude::*;\nuse std::collections::HashMap;\nuse std::path::PathBuf;\nverus! {\nglobal size_of usize == 8;\n"
+           "broadcast use vstd::std_specs::hash::group_hash_axioms;\n")
+    vf = VerusFile(header=hdr)
+    items = []
+
+    def add(it, label=None):
+        items.append(it)
+        vf.item(it, label)
+
+    for name in ("StrId", "PathId"):
+        it = r.item("struct", name)
+        it.strip_derive("Debug", "Default", "PartialOrd", "Ord")
+        add(it)
+    for name in ("IdWindow", "IdRebase"):
+        it = p.item("struct", name); it.strip_derive("Default", "Debug"); add(it)
+    it = p.item("struct", "EncodeSession"); it.strip_derive("Default"); add(it)
+    it = p.item("struct", "DecodeSession"); add(it)
+    vf.raw(ctx.unit_file("codec", "dict_spec.rs"), "spec")
+    vf.raw("impl EncodeSession {", "impl")
+    f = p.item("fn", "encode_str", impl="EncodeSession")
+    f.name_return("r")
+    f.replace("resource_table::get_str_value(id)", "vp_get_str_value(id)", rule="O9")
+    f.replace_macro("format", "vp_msg()")
+    f.spec("    requires dict_wf(*old(self)), old(self).str_dict@.len() < 0xffff_ffff,\n"
+           "    ensures dict_wf(*final(self)),\n"
+           "        // refusal at capture time: an id whose text is unknown is an error and nothing is stored\n"
+           "        res_opt(r).is_none() <==> (!old(self).str_map@.contains_key(id) && str_value(id).is_none()),\n"
+           "        res_opt(r).is_none() ==> *final(self) == *old(self),\n"
+           "        // success: the wire index points at the id's own text, earlier entries keep their index and text (frame)\n"
+           "        res_opt(r).is_some() ==> final(self).str_map@.contains_key(id) && res_opt(r).unwrap() == final(self).str_map@[id] as u64\n"
+           "            && (res_opt(r).unwrap() as int) < final(self).str_dict@.len() && str_value(id) == Some(final(self).str_dict@[res_opt(r).unwrap() as int]@),\n"
+           "        forall|k: StrId| old(self).str_map@.contains_key(k) ==> final(self).str_map@.contains_key(k) && final(self).str_map@[k] == old(self).str_map@[k],\n"
+           "        forall|i: int| 0 <= i < old(self).str_dict@.len() ==> final(self).str_dict@[i] == old(self).str_dict@[i],\n"
+           "        final(self).str_dict@.len() >= old(self).str_dict@.len(),\n"
+           "        final(self).path_map == old(self).path_map, final(self).path_dict == old(self).path_dict,\n"
+           "        final(self).token_window == old(self).token_window, final(self).text_window == old(self).text_window,")
+    f.at_start("        broadcast use axiom_strid_key_model;\n        let ghost vp_old = *self;")
+    f.before_tail("        proof {\n"
+                  "            assert forall|k: StrId| #[trigger] self.str_map@.contains_key(k) implies (self.str_map@[k] as int) < self.str_dict@.len()\n"
+                  "                && str_value(k) == Some(self.str_dict@[self.str_map@[k] as int]@) by {\n"
+                  "                if k != id { assert(vp_old.str_map@.contains_key(k)); }\n"
+                  "            }\n"
+                  "        }")
+    add(f, "EncodeSession::encode_str")
+    vf.raw("}", "impl")
+    vf.raw("impl DecodeSession {", "impl")
+    f = p.item("fn", "decode_str", impl="DecodeSession")
+    f.name_return("r")
+    f.replace_macro("format", "vp_msg()")
+    f.spec("    ensures res_opt(r).is_some() <==> (local as int) < self.strs@.len(),\n"
+           "        res_opt(r).is_some() ==> res_opt(r).unwrap() == self.strs@[local as int],")
+    add(f, "DecodeSession::decode_str")
+    vf.raw("}", "impl")
+    text = vf.finish()
+    res.clauses.update({
+        "EncodeSession::encode_str": "requires dict_wf; ensures dict_wf, Err <=> id unknown and not cached (nothing stored), Ok(i): dict[i] is the id's text, all earlier entries unchanged",
+        "DecodeSession::decode_str": "ensures Ok(strs[local]) <=> local < strs.len()",
+        "lemma_str_roundtrip": "an encoded StrId decodes (in a session that re-interned the captured dictionary) to an id with the same text",
+    })
+    return VerusJob("codec_dict", text, vf, ["EncodeSession::encode_str", "DecodeSession::decode_str", "lemma_str_roundtrip"],
+                    canaries=DICT_CANARIES, items=items, trusted=DICT_TRUSTED, rlimit=40)
 
 
 def replay(ctx, res, f):
